@@ -220,6 +220,27 @@ def _run(node, tier, seed):
                     compare("update", tables_for(f_j)[:2], f_j, f_e, gfi.asg_key(c) + tags)
                 except (AssertionError, NotImplementedError):
                     ctx.note("update_unsupported")
+            # update with a MASKED constraint and changed arguments: eagerly the flag is a Python bool (a False
+            # flag is statically the empty map), under jit it is a traced array (the constraint stays a Mask
+            # and the distribution takes its lax.cond path) - the two must agree (seeded change C23-c23c-sub3)
+            # (programs containing a switch are left out of this comparison: with unknown argument tags a
+            # switch re-draws its branch - the recorded C05 finding - and eager/jit then consume randomness
+            # differently, so the comparison would not be about the masked constraint)
+            if c and len(alph) == 2 and "switch" not in comp:
+                ja1, ca1 = to_jax_args(alph[1]), gfi.concrete_args(alph[1])
+                for fl in (False, True):
+                    req_j = Update(chm.mask(jnp.asarray(fl)))
+                    req_e = Update(chm.mask(fl))
+                    e_tr = eager_trace if eager_trace is not None else jax.tree_util.tree_map(jnp.asarray, st.trace)
+                    keep = ("score", "weight", "retval", "choices")
+                    f_j = lambda: {k_: v for k_, v in space._edit(key, st.trace, req_j, Diff.unknown_change(ja1)).items() if k_ in keep}
+                    f_e = lambda: {k_: v for k_, v in space._edit_raw(key, e_tr, req_e, Diff.unknown_change(ca1)).items() if k_ in keep}
+                    try:
+                        compare("update", tables_for(f_j)[:2], f_j, f_e, gfi.asg_key(c) + f"masked_{fl}+argchange")
+                    except (AssertionError, NotImplementedError):
+                        ctx.note("masked_update_unsupported")
+                    except Exception as e:
+                        ctx.note(f"masked_update_raised_in_jit_{type(e).__name__}")
         if node.regen_ok:
             for sd in (("all",), ("none",)):
                 req = Regenerate(build_selection(sd))
